@@ -46,15 +46,18 @@ class SessionProp(Prop):
 
     # ---- case construction
     tables = None     # a mixture: one table drawn per case
+    cfg_extra = {}    # harness switches for every generated case of this property
 
     def strategy(self, tier):
         tbs = self.tables or [self.table]
         naddr = self.naddr
         tail = list(self.tail)
 
+        extra = dict(self.cfg_extra)
+
         def mk(cfg, pre, ti, ws):
             ops = G.preamble(cfg, pre) + tbs[ti % len(tbs)].decode(ws, naddr) + tail
-            return (cfg, ops)
+            return (dict(cfg, **extra) if extra else cfg, ops)
         return st.builds(mk, G.cfg_strategy(self.profiles), G.pre_strategy(**self.pre_kwargs), st.integers(0, len(tbs) - 1),
                          G.words(self.max_words if tier == "quick" else self.max_words * 2, naddr=naddr))
 
@@ -209,10 +212,20 @@ class C05(SessionProp):
         return self.run_product(spec, res, self.ex_parts(), pre, self.EX_ALPHA, [("settle", 0), ("idle", 50)])
 
 
+def o_burst(ad, a, b, c):
+    # far more messages than the window lets through, then a broker that answers everything
+    n = [300, 520][a & 1] if b < 64 else 18 + a % 24
+    ops = [("window", ad, [1, 4, 16, 3][c % 4])]
+    for j in range(n):
+        ops.append(("publish", ad, ((a >> 1) + j * (1 + (c >> 2) % 3)) % 3, 0, 0, 0, 0))
+    return ops + [("settle", ad)] * (1 + n // 100)
+
+
 T_PUBWIN = G.Table([
     (20, G.o_publish), (6, G.o_puback), (6, G.o_pubrec), (6, G.o_pubcomp), (4, G.o_ack_good), (4, G.o_window),
     (2, G.o_fire), (1, G.o_advance_small), (2, G.o_lose_reconnect_persist), (1, G.o_lose_reconnect_clean),
     (1, G.o_reconnect_noack), (1, G.o_connack_ok), (1, G.o_settle), (2, G.o_resume_with_publish), (2, G.o_arm),
+    (1, o_burst),
 ])
 
 
@@ -222,7 +235,7 @@ class C10(SessionProp):
     table = T_PUBWIN
     profiles = (2, 3)
     max_words = 50
-    rule = ("Histories over publish at mixed QoS (bursts), acks in any order, window changes 1..16 at any "
+    rule = ("Histories over publish at mixed QoS (bursts of up to 520 messages behind a window of 1..16), acks in any order, window changes 1..16 at any "
             "time, timer expiries, loss + persistent/clean reconnect (resumed in-flight packets); plus all "
             "sequences up to length 6/7 over {pub q0,q1,q2, ack oldest, ack newest, PUBCOMP, window:=1,2,3} "
             "(exhaustive). Oracle after every step: in-flight bound at each first transmission, publish never "
@@ -478,11 +491,25 @@ def o_retrytail(ad, a, b, c):
     return [("retrytail", ad, 3 + a % 8, 300)]
 
 
+def o_pub_refused_accepted(ad, a, b, c):
+    # publishes made ahead of a CONNACK that refuses; the application connects again on the same protocol
+    ops = [("lose", ad, 0), ("build", ad), ("handlers", ad, 7), ("window", ad, 1 + a % 3),
+           ("connect", ad, 0, (c >> 1) & 1, 0)]
+    for j in range(1 + (a >> 4) % 2):
+        ops.append(("publish", ad, 1 + ((b >> j) & 1), 0, 0, 0, 0))
+    if c & 4:
+        ops.append(("subscribe", ad, 0, 1, 1))
+    ops += [("rx", ad, "CONNACK", 1 + a % 5, 0)]
+    if c & 8:
+        ops.append(("fire", 1))
+    return ops + [("connect", ad, 0, c & 1, 0), ("rx", ad, "CONNACK", 0, 0)]
+
+
 T_RETRY = G.Table([
     (8, G.o_publish_q12), (4, G.o_subscribe), (4, G.o_unsubscribe), (12, G.o_fire_many), (3, G.o_advance),
     (4, G.o_pubrec), (2, G.o_ack_good), (2, G.o_timeout), (2, G.o_bandwidth), (1, G.o_window),
     (1, G.o_lose_reconnect_persist), (1, o_retrytail), (1, G.o_publish), (2, G.o_resume_with_publish), (3, G.o_connack_ok),
-    (1, G.o_reconnect_noack), (3, G.o_late_connack),
+    (1, G.o_reconnect_noack), (3, G.o_late_connack), (2, o_pub_refused_accepted),
 ])
 
 
@@ -490,6 +517,7 @@ class C08(SessionProp):
     id = "C08"
     monitor = staticmethod(M.mon_c08)
     table = T_RETRY
+    cfg_extra = dict(reconnect_refused=True)
     max_words = 45
     pre_kwargs = dict(keepalives=(0, 0, 0, 0, 60), connack=(True, True, False))
     rule = ("Histories over QoS 1/2 publishes (payload 0..20 kB), subscribe, unsubscribe, PUBREC (so that PUBREL "
@@ -540,10 +568,18 @@ def o_pingrun(ad, a, b, c):
     return [("pingrun", ad, 2 + a % 30, b % 4)]
 
 
+def o_refused_then_accepted(ad, a, b, c):
+    # a new protocol whose first connect() is refused and whose second, with other arguments, is accepted
+    from .sim import KEEPALIVE_TABLE
+    return [("lose", ad, 0), ("build", ad), ("handlers", ad, 7),
+            ("connect", ad, KEEPALIVE_TABLE[a % 8], (c >> 1) & 1, 0), ("rx", ad, "CONNACK", 1 + a % 5, 0),
+            ("connect", ad, KEEPALIVE_TABLE[b % 8], c & 1, 0), ("rx", ad, "CONNACK", 0, 0)]
+
+
 T_KA = G.Table([
     (12, o_ping_in_time), (4, o_ping_late), (5, G.o_pingresp), (5, G.o_advance), (4, G.o_fire), (9, o_pingrun),
     (3, G.o_publish), (2, G.o_ack_good), (2, G.o_lose), (3, G.o_reconnect), (1, G.o_disconnect), (1, G.o_subscribe),
-    (2, G.o_arm_disconnect), (1, G.o_arm),
+    (2, G.o_arm_disconnect), (1, G.o_arm), (3, o_refused_then_accepted),
 ])
 
 
@@ -565,6 +601,7 @@ class C15(SessionProp):
     monitor = staticmethod(M.mon_c15)
     table = T_KA
     tables = [T_KA, T_KA_LATE]
+    cfg_extra = dict(reconnect_refused=True)
     max_words = 30
     tail = (("advance", 12),)
     pre_kwargs = dict(keepalives=(0, 1, 2, 5, 7, 60, 65535, 3), connack=(True, True, True, True, False))
@@ -1116,7 +1153,7 @@ class C03(SessionProp):
     id = "C03"
     rule = ("A stream is a generated list of well-formed broker packets (CONNACK, PUBACK/PUBREC/PUBCOMP for pending "
             "or unknown ids, SUBACK, UNSUBACK, PINGRESP, PUBREL for stored ids, PUBLISH at each QoS with payloads "
-            "giving 1-, 2- and 3-byte remaining lengths, 4-byte in thorough) delivered to a client first driven "
+            "giving 1-, 2-, 3- and 4-byte remaining lengths; floods of 2500-7000 packets in one segment) delivered to a client first driven "
             "into a state where each packet has an observable effect. Compositions: all 2^(n-1) for streams up to "
             "12/15 bytes (exhaustive), every 1-cut, byte-at-a-time, 2-cuts around packet boundaries and length "
             "fields, and Hypothesis-drawn compositions incl. empty chunks. Oracle (metamorphic): everything the "
@@ -1343,8 +1380,11 @@ class C03(SessionProp):
         specs += [("connack", k) for k in range(2)]
         specs += [("long", i) for i in range(4 if tier == "quick" else 8)]
         specs += [("bigsuback", i) for i in range(2 if tier == "quick" else 6)]
-        if tier != "quick":
-            specs += [("huge", i) for i in range(2)]      # 4-byte remaining length (2.1 MB payload)
+        # 4-byte remaining length (2.1 MB payload): every 1-cut around the header; thorough adds pairs of cuts
+        specs += [("huge", i) for i in range(1 if tier == "quick" else 2)]
+        # thousands of complete packets in one segment (a bulk of retained or queued messages)
+        specs += [("flood", i) for i in range(2 if tier == "quick" else 4)]
+        self.pairs_for_huge = tier != "quick"
         return specs
 
     def run_exhaustive(self, spec, res):
@@ -1368,6 +1408,13 @@ class C03(SessionProp):
             cfg = dict(profile=3, version=4, jitter=0.25, big=True)
             setup = G.preamble(cfg, dict(window=4)) + [("publish", 0, 1)]
             stream = [("rx", 0, "PUBACK", 0, 0, 0), ("rx", 0, "PUBLISH", 1 + spec[1] % 2, (7 << 4) | 4, 0), ("rx", 0, "PINGRESP")]
+        elif spec[0] == "flood":
+            cfg = dict(profile=3 if spec[1] % 2 == 0 else 1, version=4 if spec[1] < 2 else 3, jitter=0.25)
+            n_pk = [2500, 4000, 7000, 3000][spec[1] % 4]
+            setup = G.preamble(cfg, dict(window=4, keepalive=7))
+            stream = []
+            for j in range(n_pk):
+                stream.append(("rx", 0, "PUBLISH", (j % 3) % 2 if spec[1] % 2 == 0 else 0, 0, 0) if j % 5 else ("rx", 0, "PINGRESP"))
         else:
             # long packets: 2- and 3-byte (thorough: 4-byte) remaining lengths, every 1-cut near the header and a stride elsewhere
             size_bits = [(3 << 4), (4 << 4), (5 << 4), (4 << 4) | 1, (3 << 4), (5 << 4), (4 << 4), (3 << 4)][spec[1] % 8]
@@ -1378,7 +1425,19 @@ class C03(SessionProp):
         data = ref[2]
         total = sum(len(d) for d in data)
         n = 0
-        if spec[0] in ("short", "connack") and total <= self.max_exhaustive_bytes:
+        if spec[0] == "flood":
+            bounds = []
+            acc = 0
+            for d in data:
+                bounds.append(acc)
+                acc += len(d)
+            for cuts in ([], [bounds[len(bounds) // 2]], [bounds[len(bounds) // 3] + 1, bounds[-1] + 1], bounds[100::100]):
+                vd = Verdict()
+                self.compare(vd, cfg, setup, stream, list(cuts), ref)
+                res.add("exhaustive:flood", (cfg, setup, stream, list(cuts)), vd)
+                n += 1
+            res.exhaustive["flood%s/%d_packets" % (spec[1:], len(data))] = n
+        elif spec[0] in ("short", "connack") and total <= self.max_exhaustive_bytes:
             lim = total - 1
             for mask in range(1 << lim):
                 cuts = [i + 1 for i in range(lim) if (mask >> i) & 1]
@@ -1405,6 +1464,8 @@ class C03(SessionProp):
                 res.add("exhaustive:one_cut", (cfg, setup, stream, [c]), vd)
                 n += 1
             near = sorted(x for x in ones if any(abs(x - b) <= (5 if total < 1000000 else 3) for b in bounds))
+            if spec[0] == "huge" and not getattr(self, "pairs_for_huge", True):
+                near = []
             for c1, c2 in itertools.combinations(near, 2):
                 vd = Verdict()
                 self.compare(vd, cfg, setup, stream, [c1, c2], ref)
@@ -1483,8 +1544,7 @@ class C14(SessionProp):
             for st_, o in enumerate(w.ops_done):
                 if o and o[0] == "flush" and (k >= len(ops) or ops[k] != o):
                     continue
-                if st_ not in steps:
-                    keep.append(ops[k])
+                keep.append(ops[k] if st_ not in steps else ("flush",))   # still the end of a coalesced segment
                 k += 1
             tw = sim.run_case(dict(cfg), keep)
             skip = set(r for _, r in forb)
@@ -1691,7 +1751,9 @@ class C20(SessionProp):
         # twin run without the rejected calls
         rej = [i for i, o in enumerate(ops) if o[0] == "call" and o[5] in ("reject", "reject_any")]
         if rej:
-            twin_ops = [o for i, o in enumerate(ops) if i not in rej]
+            # (the removed call still ends a coalesced segment where it stood: what the broker sends next
+            # depends on what has been delivered)
+            twin_ops = [o if i not in rej else ("flush",) for i, o in enumerate(ops)]
             tw = sim.run_case(dict(cfg), twin_ops)
             skip = set(r.rid for r in w.reqs if getattr(r, "expect", None) in ("reject", "reject_any"))
             va = address_view(w, 0, skip_rids=skip)
@@ -1982,6 +2044,7 @@ T_CLOSE = G.Table([
 ])
 ALL_TABLES = [T_MIX, T_PUB, T_PUBWIN, T_Q2, T_SUB, T_RETRY, T_KA, T_PERS, T_CLEAN, T_HS, T_INB, T_CLOSE]
 C13.tables = ALL_TABLES
+C13.cfg_extra = dict(reconnect_refused=True)
 C18.tables = [T_CLOSE] * 8 + ALL_TABLES
 
 
